@@ -3,6 +3,7 @@ import random, re
 from props.gossip_common import *
 from props import wire
 
+from props import bulk_probe
 ID = "C13"
 COQ_TARGETS = ["Run/Run_Gossip.vo", "Run/Run_Codec.vo"]
 META = {
@@ -404,11 +405,17 @@ def run(ctx):
            "monitor": {"codec_contents": len(ccases), "histories": len(allc), "raw_hostile": len(raws), "raw_accepted_without_error": nacc,
                        "failures": len(cmon) + len(wmon)}}
     cov["glue_probes"] = gcov
+    # bulk synchronisation over the datagram path (hundreds to thousands of entries; monitor only)
+    bcov, bv = bulk_probe.run(ctx, ID)
+    cov["bulk_pull"] = bcov
+    violations += bv
     return {"coverage": cov, "violations": violations, "known": known}
 
 
 def replay(path, wd):
     obj = json.load(open(path))
+    if obj.get("kind") == "bulk":
+        return bulk_probe.replay(obj, wd)
     binary = build_harness("pkg/gossip", dirs=["gossip"])
     if replay_glue(obj, binary, wd):
         return 0
